@@ -1033,9 +1033,11 @@ func tryInt(t fp.Try[int]) string { return toRes(t).String() }
 func laws(x *mc.X) {
 	law := x.Choose(5, "law")
 	s0 := x.Choose(3, "initial state")
+	x.NonTrivial()
 	switch law {
 	case 0, 1, 2: // Put(c) then Get yields c and leaves state c
 		c := x.Choose(3, "c")
+		x.Tag("law=put-get")
 		var p ST
 		var form string
 		switch law {
@@ -1060,8 +1062,8 @@ func laws(x *mc.X) {
 			x.Fail("statet.Put/state", "Put(%d) from state %d = (%s, state %d), want (Success(unit), state %d)", c, s0, tryUnit(tu), ns, c)
 		}
 		x.Observe("put-get", law, c, s0, ns)
-		x.Tag("law=put-get")
 	case 3: // Get then Put is a no-op
+		x.Tag("law=get-put")
 		p := statet.FlatMap(statet.Get[int](), statet.Put[int])
 		t, ns := p.Run(s0)
 		x.Logf("FlatMap(Get, Put) from state %d = (%s, state %d)", s0, tryUnit(t), ns)
@@ -1069,11 +1071,14 @@ func laws(x *mc.X) {
 			x.Fail("statet.Put/get-put", "FlatMap(Get, Put) from state %d = (%s, state %d), want (Success(unit), state %d)", s0, tryUnit(t), ns, s0)
 		}
 		x.Observe("get-put", s0, ns)
-		x.Tag("law=get-put")
 	case 4: // Modify(f) = Get followed by Put of f's result
 		fi := x.Choose(27, "f")
 		tab := [3]int{fi % 3, fi / 3 % 3, fi / 9}
 		f := func(s int) int { return tab[s] }
+		x.Tag("law=modify")
+		if tab[s0] != s0 {
+			x.Tag("law=modify/f-changes-the-state")
+		}
 		lt, ls := statet.Modify(f).Run(s0)
 		rt, rs := statet.FlatMap(statet.Get[int](), func(s int) fp.StateT[int, fp.Unit] { return statet.Put(f(s)) }).Run(s0)
 		x.Logf("f=%v from state %d: Modify(f) = (%s, state %d); FlatMap(Get, s => Put(f s)) = (%s, state %d)", tab, s0, tryUnit(lt), ls, tryUnit(rt), rs)
@@ -1084,12 +1089,7 @@ func laws(x *mc.X) {
 			x.Fail("statet.Put/modify-law-rhs", "FlatMap(Get, s => Put(f s)) with f=%v from state %d = (%s, state %d), but Modify(f) = (%s, state %d) and f(%d) = %d", tab, s0, tryUnit(rt), rs, tryUnit(lt), ls, s0, tab[s0])
 		}
 		x.Observe("modify", fi, s0, ls, rs)
-		x.Tag("law=modify")
-		if tab[s0] != s0 {
-			x.Tag("law=modify/f-changes-the-state")
-		}
 	}
-	x.NonTrivial()
 }
 
 func main() {
